@@ -254,6 +254,142 @@ type zz15T11 struct {
 	Zz15Rec
 }
 
+// ---- T12: 132 fields: the set of seen fields needs a third 64-bit word.
+type zz15T12 struct {
+	F000 int8
+	F001 int8
+	F002 int8
+	F003 int8
+	F004 int8
+	F005 int8
+	F006 int8
+	F007 int8
+	F008 int8
+	F009 int8
+	F010 int8
+	F011 int8
+	F012 int8
+	F013 int8
+	F014 int8
+	F015 int8
+	F016 int8
+	F017 int8
+	F018 int8
+	F019 int8
+	F020 int8
+	F021 int8
+	F022 int8
+	F023 int8
+	F024 int8
+	F025 int8
+	F026 int8
+	F027 int8
+	F028 int8
+	F029 int8
+	F030 int8
+	F031 int8
+	F032 int8
+	F033 int8
+	F034 int8
+	F035 int8
+	F036 int8
+	F037 int8
+	F038 int8
+	F039 int8
+	F040 int8
+	F041 int8
+	F042 int8
+	F043 int8
+	F044 int8
+	F045 int8
+	F046 int8
+	F047 int8
+	F048 int8
+	F049 int8
+	F050 int8
+	F051 int8
+	F052 int8
+	F053 int8
+	F054 int8
+	F055 int8
+	F056 int8
+	F057 int8
+	F058 int8
+	F059 int8
+	F060 int8
+	F061 int8
+	F062 int8
+	F063 int8
+	F064 int8
+	F065 int8
+	F066 int8
+	F067 int8
+	F068 int8
+	F069 int8
+	F070 int8
+	F071 int8
+	F072 int8
+	F073 int8
+	F074 int8
+	F075 int8
+	F076 int8
+	F077 int8
+	F078 int8
+	F079 int8
+	F080 int8
+	F081 int8
+	F082 int8
+	F083 int8
+	F084 int8
+	F085 int8
+	F086 int8
+	F087 int8
+	F088 int8
+	F089 int8
+	F090 int8
+	F091 int8
+	F092 int8
+	F093 int8
+	F094 int8
+	F095 int8
+	F096 int8
+	F097 int8
+	F098 int8
+	F099 int8
+	F100 int8
+	F101 int8
+	F102 int8
+	F103 int8
+	F104 int8
+	F105 int8
+	F106 int8
+	F107 int8
+	F108 int8
+	F109 int8
+	F110 int8
+	F111 int8
+	F112 int8
+	F113 int8
+	F114 int8
+	F115 int8
+	F116 int8
+	F117 int8
+	F118 int8
+	F119 int8
+	F120 int8
+	F121 int8
+	F122 int8
+	F123 int8
+	F124 int8
+	F125 int8
+	F126 int8
+	F127 int8
+	F128 int8
+	F129 int8
+	F130 int8
+	F131 int8
+}
+
 // zz15KFDiamond: recorded known finding (see /verif/known_findings.json): a field reachable only
 // through a struct type that is met twice at the same depth is not cancelled (type zz15T10).
 const zz15KFDiamond = "KF-C15-diamond-embedding"
@@ -289,6 +425,8 @@ func zz15Table(t int) []zz15M {
 		return []zz15M{{Name: "V"}, {Name: "U"}}
 	case 11:
 		return []zz15M{{Name: "X"}, {Name: "Y"}, {Name: "R"}}
+	case 12:
+		return []zz15M{{Name: "F000"}, {Name: "F001"}, {Name: "F002"}, {Name: "F003"}, {Name: "F004"}, {Name: "F005"}, {Name: "F006"}, {Name: "F007"}, {Name: "F008"}, {Name: "F009"}, {Name: "F010"}, {Name: "F011"}, {Name: "F012"}, {Name: "F013"}, {Name: "F014"}, {Name: "F015"}, {Name: "F016"}, {Name: "F017"}, {Name: "F018"}, {Name: "F019"}, {Name: "F020"}, {Name: "F021"}, {Name: "F022"}, {Name: "F023"}, {Name: "F024"}, {Name: "F025"}, {Name: "F026"}, {Name: "F027"}, {Name: "F028"}, {Name: "F029"}, {Name: "F030"}, {Name: "F031"}, {Name: "F032"}, {Name: "F033"}, {Name: "F034"}, {Name: "F035"}, {Name: "F036"}, {Name: "F037"}, {Name: "F038"}, {Name: "F039"}, {Name: "F040"}, {Name: "F041"}, {Name: "F042"}, {Name: "F043"}, {Name: "F044"}, {Name: "F045"}, {Name: "F046"}, {Name: "F047"}, {Name: "F048"}, {Name: "F049"}, {Name: "F050"}, {Name: "F051"}, {Name: "F052"}, {Name: "F053"}, {Name: "F054"}, {Name: "F055"}, {Name: "F056"}, {Name: "F057"}, {Name: "F058"}, {Name: "F059"}, {Name: "F060"}, {Name: "F061"}, {Name: "F062"}, {Name: "F063"}, {Name: "F064"}, {Name: "F065"}, {Name: "F066"}, {Name: "F067"}, {Name: "F068"}, {Name: "F069"}, {Name: "F070"}, {Name: "F071"}, {Name: "F072"}, {Name: "F073"}, {Name: "F074"}, {Name: "F075"}, {Name: "F076"}, {Name: "F077"}, {Name: "F078"}, {Name: "F079"}, {Name: "F080"}, {Name: "F081"}, {Name: "F082"}, {Name: "F083"}, {Name: "F084"}, {Name: "F085"}, {Name: "F086"}, {Name: "F087"}, {Name: "F088"}, {Name: "F089"}, {Name: "F090"}, {Name: "F091"}, {Name: "F092"}, {Name: "F093"}, {Name: "F094"}, {Name: "F095"}, {Name: "F096"}, {Name: "F097"}, {Name: "F098"}, {Name: "F099"}, {Name: "F100"}, {Name: "F101"}, {Name: "F102"}, {Name: "F103"}, {Name: "F104"}, {Name: "F105"}, {Name: "F106"}, {Name: "F107"}, {Name: "F108"}, {Name: "F109"}, {Name: "F110"}, {Name: "F111"}, {Name: "F112"}, {Name: "F113"}, {Name: "F114"}, {Name: "F115"}, {Name: "F116"}, {Name: "F117"}, {Name: "F118"}, {Name: "F119"}, {Name: "F120"}, {Name: "F121"}, {Name: "F122"}, {Name: "F123"}, {Name: "F124"}, {Name: "F125"}, {Name: "F126"}, {Name: "F127"}, {Name: "F128"}, {Name: "F129"}, {Name: "F130"}, {Name: "F131"}}
 	}
 	return nil
 }
@@ -317,6 +455,8 @@ func zz15New(t int) any {
 		return new(zz15T10)
 	case 11:
 		return new(zz15T11)
+	case 12:
+		return new(zz15T12)
 	}
 	return nil
 }
@@ -356,6 +496,8 @@ func zz15Leaves(t int, v any, alloc bool) []*int8 {
 		return []*int8{&x.Zz15DB.V, &x.U, &x.Zz15DA.Zz15DC.X, &x.Zz15DA.Zz15DC.Zz15DD.Y, &x.Zz15DB.Zz15DC.X, &x.Zz15DB.Zz15DC.Zz15DD.Y}
 	case *zz15T11:
 		return []*int8{&x.Zz15SC.X, &x.Zz15SC.Zz15SD.Y, &x.Zz15Rec.R, &x.Zz15SB.Zz15SC.X, &x.Zz15SB.Zz15SC.Zz15SD.Y}
+	case *zz15T12:
+		return []*int8{&x.F000, &x.F001, &x.F002, &x.F003, &x.F004, &x.F005, &x.F006, &x.F007, &x.F008, &x.F009, &x.F010, &x.F011, &x.F012, &x.F013, &x.F014, &x.F015, &x.F016, &x.F017, &x.F018, &x.F019, &x.F020, &x.F021, &x.F022, &x.F023, &x.F024, &x.F025, &x.F026, &x.F027, &x.F028, &x.F029, &x.F030, &x.F031, &x.F032, &x.F033, &x.F034, &x.F035, &x.F036, &x.F037, &x.F038, &x.F039, &x.F040, &x.F041, &x.F042, &x.F043, &x.F044, &x.F045, &x.F046, &x.F047, &x.F048, &x.F049, &x.F050, &x.F051, &x.F052, &x.F053, &x.F054, &x.F055, &x.F056, &x.F057, &x.F058, &x.F059, &x.F060, &x.F061, &x.F062, &x.F063, &x.F064, &x.F065, &x.F066, &x.F067, &x.F068, &x.F069, &x.F070, &x.F071, &x.F072, &x.F073, &x.F074, &x.F075, &x.F076, &x.F077, &x.F078, &x.F079, &x.F080, &x.F081, &x.F082, &x.F083, &x.F084, &x.F085, &x.F086, &x.F087, &x.F088, &x.F089, &x.F090, &x.F091, &x.F092, &x.F093, &x.F094, &x.F095, &x.F096, &x.F097, &x.F098, &x.F099, &x.F100, &x.F101, &x.F102, &x.F103, &x.F104, &x.F105, &x.F106, &x.F107, &x.F108, &x.F109, &x.F110, &x.F111, &x.F112, &x.F113, &x.F114, &x.F115, &x.F116, &x.F117, &x.F118, &x.F119, &x.F120, &x.F121, &x.F122, &x.F123, &x.F124, &x.F125, &x.F126, &x.F127, &x.F128, &x.F129, &x.F130, &x.F131}
 	}
 	return nil
 }
@@ -409,12 +551,12 @@ func zz15LeafVal(i int) int { return i%100 + 1 }
 
 // VerifC15Marshal: the members Marshal emits for a value of type number t, and their order, are
 // the hand-written table's. state 0: every scalar field holds a distinct non-zero value and the
-// embedded pointer is set; 1: the zero value; 2: as 0 with the embedded pointer nil. The
-// fallback (if any) holds one member "k":9 in state 0.
+// embedded pointer is set; 1: the zero value; 2: as 0 with the embedded pointer nil; 3: the zero
+// value under OmitZeroStructFields(true). The fallback (if any) holds one member "k":9 in state 0.
 func VerifC15Marshal(t, state int) {
 	tbl := zz15Table(t)
 	v := zz15New(t)
-	if state != 1 {
+	if state == 0 || state == 2 {
 		for i, p := range zz15Leaves(t, v, state == 0) {
 			if p != nil {
 				*p = int8(zz15LeafVal(i))
@@ -430,7 +572,13 @@ func VerifC15Marshal(t, state int) {
 			x.R = jsontext.Value(`{"k":9}`)
 		}
 	}
-	out, err := Marshal(v)
+	var out []byte
+	var err error
+	if state == 3 {
+		out, err = Marshal(v, OmitZeroStructFields(true))
+	} else {
+		out, err = Marshal(v)
+	}
 	vrt.Assert("C15/marshal/no-error", err == nil)
 	if err != nil {
 		return
@@ -441,12 +589,15 @@ func VerifC15Marshal(t, state int) {
 	vrt.Assert("C15/marshal/is-object", ok)
 	vrt.Cover("marshal-done")
 	want := zzspec.WantLeaves(tbl, state)
+	if state == 3 {
+		want = nil // "equivalent to specifying the omitzero tag option on every field": nothing of a zero value is left
+	}
 	wi, fbSeen := 0, 0
 	for _, g := range got {
 		if wi < len(want) && zzspec.SamePath(g.Path, want[wi].Path) {
 			w := want[wi]
 			exp := zz15Dec(zz15LeafVal(w.Leaf))
-			if state == 1 {
+			if state == 1 || state == 3 {
 				exp = "0"
 			}
 			if w.Quoted {
